@@ -19,7 +19,7 @@ LEVEL = 'exploration'
 TECHNIQUE = 'runtime monitor: independent template renderer + recording logger plugin vs emitted messages and snapshots'
 RULE = ('templates from a grammar: literal runs (ascii, unicode, %, $, quotes), doubled braces, 0-5 fields naming '
         'locals, attributes, indexes, calls, host globals and failing expressions (no ":" "!" or braces inside a '
-        'field); log-only and log+snapshot tracepoints, a logger that rejects text it cannot encode (with a co-located tracepoint), fire_count 1/2/-1, 1-4 hits with changing frame state; '
+        'field); log-only and log+snapshot tracepoints, a logger that rejects text it cannot encode (with a co-located tracepoint), a logger with parameter names of its own, plugins configured again mid-run, empty containers and freshly computed temporaries as fields, fire_count 1/2/-1, 1-4 hits with changing frame state; '
         'malformed templates for containment only; non-trivial = a message was expected and compared; distinct by '
         '(template, frame inputs, mode)')
 ASSUMPTIONS = ['field expressions avoid the characters the format mini-language gives a meaning to']
